@@ -20,10 +20,18 @@ def error_table(ctx):
 
 
 def lean_error_table(mx, rows, bad):
-    ent = ["  (%d, [%s])" % (k, ", ".join(str(b) for b in rows[k])) for k in range(0, mx + 1)]
-    return ("/- GENERATED on every check run from the running library (sf_error_number for 0..SFE_MAX_ERROR) -/\nnamespace Sf.Generated\n\n"
-            "def errMax : Nat := %d\n\ndef badErrnum : List Nat := [%s]\n\ndef errTable : List (Nat × List Nat) := [\n%s]\n\nend Sf.Generated\n"
-            % (mx, ", ".join(str(b) for b in bad), ",\n".join(ent)))
+    out = ["/- GENERATED on every check run from the running library (sf_error_number for 0..SFE_MAX_ERROR) -/", "namespace Sf.Generated", "",
+           "def errMax : Nat := %d" % mx, "", "def badErrnum : List Nat := [%s]" % ", ".join(str(b) for b in bad), ""]
+    names = []
+    for k in range(0, mx + 1):
+        out.append("private def errStr_%d : List Nat := [%s]" % (k, ", ".join(str(b) for b in rows[k])))
+    chunk = 32
+    for c in range(0, mx + 1, chunk):
+        nm = "errTable_%d" % (c // chunk)
+        names.append(nm)
+        out.append("private def %s : List (Nat × List Nat) := [%s]" % (nm, ", ".join("(%d, errStr_%d)" % (k, k) for k in range(c, min(mx + 1, c + chunk)))))
+    out += ["", "def errTable : List (Nat × List Nat) := " + " ++ ".join(names), "", "end Sf.Generated", ""]
+    return "\n".join(out)
 
 
 def invalid_ops(rng, h, mode, ch, F):
@@ -52,6 +60,25 @@ def invalid_ops(rng, h, mode, ch, F):
     return ops
 
 
+def _essential(op, line, ch):
+    """what the contract determines: for reads the return value, error and the first `ret` frames/items (the rest of a short
+    read's buffer is unspecified unless the call is at end of data, where it must be zero)"""
+    line = S.normalise(line)
+    t = op.split()
+    if t[0] == "r" and "data=" in line:
+        kv = abscheck.parse_kv(line)
+        try:
+            ret = int(kv.get("ret", "0"))
+        except ValueError:
+            return line
+        data = kv.get("data", "")
+        if ret <= 0:
+            return "ret=%s err=%s data=%s" % (kv.get("ret"), kv.get("err"), data)
+        items = ret if t[3] == "i" else ret * ch
+        return "ret=%s err=%s data=%s" % (kv.get("ret"), kv.get("err"), data[:items * S.DIG[t[2]]])
+    return line
+
+
 def build(rng, f, ch, n):
     """base script (valid ops only) and twin (with invalid ops inserted); returns (base, twin, marks) where marks maps
     twin line index -> (expected failure value, kind) for the inserted ops"""
@@ -72,7 +99,7 @@ def build(rng, f, ch, n):
         base.append("info h1")
     base += ["close h1", "dump s0"]
     twin, marks = [], {}
-    F_guess = n + 400
+    F_guess = n + 1000000      # certainly past the end whatever the block padding
     for line in base:
         t = line.split()
         twin.append(line)
@@ -114,7 +141,9 @@ def run(ctx):
     ctx.coverage["traces_validated_against_impl"] += sa["scripts"]
     # ---- B: twin runs on every writable format ----
     rng = ctx.rng
-    fs = [f for f in formats.writable_formats(ctx) if f.major != 0x16 and f.codec != 0x21]
+    # SD2 needs a path; OKI/VOX and RAW/DWVW are known findings of C05 (odd counts / estimated frame count) that make
+    # their read results depend on uninitialised staging data: they are exercised by C05/C06, not here
+    fs = [f for f in formats.writable_formats(ctx) if f.major != 0x16 and f.codec != 0x21 and not (f.major == 0x04 and f.codec in (0x40, 0x41, 0x42))]
     jobs = []
     for f in fs[rng.randrange(2)::2] if quick else fs:
         ch = min(rng.choice([1, 2, 2, 3]), f.maxch)
@@ -160,7 +189,7 @@ def run(ctx):
                 j += 3 if tl[j + 2].startswith("info") and (j + 2) not in marks and tl[j + 1].startswith("strerror") and (k >= len(bl) or tl[j + 2] != bl[k] or True) and tl[j + 1].split()[1] == "h1" else 2
                 continue
             if k < len(bl) and tl[j] == bl[k]:
-                if S.normalise(a[k]) != S.normalise(b[j]):
+                if _essential(tl[j], a[k], ch) != _essential(tl[j], b[j], ch):
                     report(f, "state changed by an invalid call", "line '%s' answers '%s' after invalid calls, '%s' without them" % (tl[j][:60], b[j][:160], a[k][:160]), twin, j)
                     break
                 kv = abscheck.parse_kv(b[j])
